@@ -5,7 +5,7 @@
 (* changed at a known beam time.                                                *)
 (* The flash phase is not observable beforehand: the spec keeps the set of      *)
 (* phases (0..31) consistent with every frame seen since the last reset.        *)
-EXTENDS Screen, Ula, Json, IOUtils, Sequences, TLC
+EXTENDS Screen, Ula, Json, IOUtils, Sequences, SequencesExt, TLC
 
 Rec == ndJsonDeserialize(IOEnv.TRACE)
 
@@ -58,9 +58,19 @@ WFrame(e) ==
        /\ IF keep # {} THEN phases' = keep /\ bad' = bad
           ELSE phases' = 0..31 /\ Report("beam", [frame |-> fno, tw |-> e.tw, off |-> e.off, plainOk |-> okN, flashedOk |-> okF])
 
+\* writes anywhere in the address space: only those that the memory map sends into the visible display file
+\* (bank 5, or bank 7 while the shadow screen is displayed; offsets 0..6911) change what the ULA sees
+ApplyW(s, w, vis) ==
+    LET a == w[2]
+        bank == IF a >= 49152 THEN w[1] ELSE IF a >= 32768 THEN 2 ELSE IF a >= 16384 THEN 5 ELSE -1
+        off == a % 16384
+    IN IF bank = vis /\ off < 6912 THEN [s EXCEPT ![off + 1] = w[3]] ELSE s
+Writes(e) == scr' = FoldLeft(LAMBDA s, w : ApplyW(s, w, IF e.shadow THEN 7 ELSE 5), scr, e.ws)
+
 Step(e) ==
     CASE e.ev = "reset" -> m' = e.m /\ path' = e.path /\ scr' = <<>> /\ phases' = 0..31 /\ fno' = 0 /\ bad' = bad
       [] e.ev = "screen" -> scr' = e.bytes /\ UNCHANGED <<m, phases, fno, path, bad>>
+      [] e.ev = "writes" -> Writes(e) /\ UNCHANGED <<m, phases, fno, path, bad>>
       \* frames that passed without being logged still advance the flash counter
       [] e.ev = "skip" -> fno' = fno + e.n /\ UNCHANGED <<m, scr, phases, path, bad>>
       [] e.ev = "frame" -> FrameEv(e) /\ UNCHANGED <<m, scr, path>>
